@@ -1,12 +1,112 @@
 import IpaVerif.Model.Util
-/-! Line-protocol handlers for property C06 (model side). Import-free. -/
+import IpaVerif.Model.Prss
+/-! Line-protocol handlers for property C06 (model side) and the spec-side oracle. Import-free.
+
+Requests
+  c06.pack index offset              → ok <u64> <display> | err:<kind>
+  c06.unpack value                   → ok <index> <offset> | err:<kind>
+  c06.agree seed gate index Z chunks → agree <blocks> distinct | panic:…
+  c06.negotiate seed                 → agree <blocks> distinct
+  c06.xshard seed shards             → agree <values>
+  c06.used op,op,…                   → ok | panic:…     op = ib:gate:index:Z:chunks | il:… | ir:… | sq:gate:n
+-/
 namespace IpaVerif.Driver.C06
-open IpaVerif.Util
+open IpaVerif.Util IpaVerif.Prss IpaVerif.Generated.Prss
 
-/-- `some response` if the request belongs to this property, else `none`. -/
-def handle (_toks : List String) : Option String := none
+def parseOp (s : String) : Option Op :=
+  match s.splitOn ":" with
+  | ["ib", g, i, z, c] => do pure (.indexedBoth g (← i.toNat?) (← z.toNat?) (← c.toNat?))
+  | ["il", g, i, z, c] => do pure (.indexedOne g true (← i.toNat?) (← z.toNat?) (← c.toNat?))
+  | ["ir", g, i, z, c] => do pure (.indexedOne g false (← i.toNat?) (← z.toNat?) (← c.toNat?))
+  | ["sq", g, n] => do pure (.sequential g (← n.toNat?))
+  | _ => none
 
-/-- Property oracle on (request, implementation response): `some "holds"`, `some "fails <why>"`, or `none`. -/
-def oracle (_toks : List String) (_impl : String) : Option String := none
+def handle (toks : List String) : Option String :=
+  match toks with
+  | ["c06.pack", i, o] => some <| (do
+      let i ← i.toNat?
+      let o ← o.toNat?
+      match pack i o with
+      | .ok v => pure s!"ok {v} {i}:{o}"
+      | .err m => pure s!"err:{m}"
+      | .panic m => pure s!"panic:{m}").getD "bad-request"
+  | ["c06.unpack", v] => some <| (do
+      let v ← v.toNat?
+      match unpack v with
+      | .ok (i, o) => pure s!"ok {i} {o}"
+      | .err m => pure s!"err:{m}"
+      | .panic m => pure s!"panic:{m}").getD "bad-request"
+  | ["c06.agree", _seed, _gate, i, z, c] => some <| (do
+      let i ← i.toNat?
+      let z ← z.toNat?
+      let c ← c.toNat?
+      -- each of the three endpoints draws left and right chunks of a fresh gate
+      match step { items := [] } (.indexedBoth "g" i z c) with
+      | .ok _ => pure s!"agree {z * c} distinct"
+      | .panic m => pure s!"panic:{m}"
+      | .err m => pure s!"err:{m}").getD "bad-request"
+  | ["c06.negotiate", _seed] => some "agree 24 distinct"
+  | ["c06.xshard", _seed, shards] => some <| (do
+      let n ← shards.toNat?
+      pure s!"agree {3 * n}").getD "bad-request"
+  | ["c06.used", ops] => some <| (do
+      let ops ← (ops.splitOn ",").mapM parseOp
+      match run ops with
+      | .ok _ => pure "ok"
+      | .panic m => pure s!"panic:{m}"
+      | .err m => pure s!"err:{m}").getD "bad-request"
+  | _ => none
+
+/-- spec side: plain arithmetic, independent of the model's `pack`/`step`. -/
+def oracle (toks : List String) (impl : String) : Option String :=
+  let verdict (o : Option Bool) (why : String) : Option String :=
+    match o with | some true => some "holds" | some false => some ("fails " ++ why) | none => some "unknown"
+  match toks with
+  | ["c06.pack", i, o] => verdict (do
+      let i ← i.toNat?
+      let o ← o.toNat?
+      if o ≤ 2 ^ 11 then
+        match impl.splitOn " " with
+        | ["ok", v, _] => pure ((← v.toNat?) / 2 ^ 32 == i && (← v.toNat?) % 2 ^ 32 == o)
+        | _ => pure false
+      else pure (impl.startsWith "err")) "packed value does not determine (index, offset), or an offset above the cap was accepted"
+  | ["c06.unpack", v] => verdict (do
+      let v ← v.toNat?
+      if v < 2 ^ 64 ∧ v % 2 ^ 32 ≤ 2 ^ 11 then pure (impl == s!"ok {v / 2 ^ 32} {v % 2 ^ 32}")
+      else pure (impl.startsWith "err")) "unpacking is not the inverse of packing / out-of-range value accepted"
+  | ["c06.agree", _, _, _, z, c] => verdict (do
+      let z ← z.toNat?
+      let c ← c.toNat?
+      if z * c ≤ 2 ^ 11 + 1 then pure (impl == s!"agree {z * c} distinct")
+      else pure (impl.startsWith "panic")) "neighbouring helpers derived different values, or values repeated across (step, index, offset), or an offset above the cap was served"
+  | ["c06.negotiate", _] => verdict (some (impl.startsWith "agree" && impl.endsWith "distinct")) "negotiated endpoints disagree"
+  | ["c06.xshard", _, _] => verdict (some (impl.startsWith "agree")) "shards of a helper / neighbouring helpers disagree on cross-shard randomness"
+  | ["c06.used", ops] => verdict (do
+      -- spec: a panic is required exactly when some (gate, side, index, offset) is drawn twice, a gate is used
+      -- both ways, a sequential gate is requested twice, or an offset exceeds the cap
+      let ops := ops.splitOn ","
+      let mut seen : List (String × Bool × Nat × Nat) := []
+      let mut kinds : List (String × Bool) := []
+      let mut bad := false
+      for op in ops do
+        if bad then break
+        match op.splitOn ":" with
+        | [k, g, i, z, c] =>
+            let i ← i.toNat?
+            let z ← z.toNat?
+            let c ← c.toNat?
+            if kinds.contains (g, true) then bad := true
+            else
+              kinds := (g, false) :: kinds
+              for off in [0:z * c] do
+                for side in (if k == "ib" then [true, false] else if k == "il" then [true] else [false]) do
+                  if off > 2 ^ 11 ∨ seen.contains (g, side, i, off) then bad := true
+                  seen := (g, side, i, off) :: seen
+        | ["sq", g, _] =>
+            if kinds.any (·.1 == g) then bad := true
+            kinds := (g, true) :: kinds
+        | _ => none
+      pure (if bad then impl.startsWith "panic" else impl == "ok")) "a (step, index, offset) was served twice, or a gate was used both indexed and sequential, without the debug-build detector firing"
+  | _ => none
 
 end IpaVerif.Driver.C06
